@@ -584,9 +584,15 @@ class SymReal(SymNum):
     __slots__ = ()
 
     def __round__(self, nd=None):
-        if nd is not None:
-            raise ModelGap("round(x, ndigits)")
-        return SymInt(cur().aux_round(self.lin))
+        if nd is None:
+            return SymInt(cur().aux_round(self.lin))
+        if isinstance(nd, SymInt):
+            nd = nd.__index__()
+        if not isinstance(nd, int):
+            raise ModelGap("round(x, ndigits) with non-integer ndigits")
+        # exact-arithmetic reading of round(x, nd): nearest multiple of 10^-nd, ties to even multiple
+        p = Fraction(10) ** nd
+        return SymReal(cur().aux_round(self.lin.scale(p)).scale(1 / p))
 
     def __floor__(self):
         return SymInt(cur().aux_floor(self.lin))
